@@ -148,8 +148,13 @@ func pathCase(id int, seed int64, out *json.Encoder) {
 			}
 			ev.Res, _ = guard(func() error { return h.Delete(ctx, k, k) })
 		default:
-			ev.Kind = "clone"
-			ev.Res, _ = guard(func() error { _, err := h.Clone(ctx); return err })
+			if rng.Intn(2) == 0 {
+				ev.Kind = "clone"
+				ev.Res, _ = guard(func() error { _, err := h.Clone(ctx); return err })
+			} else {
+				ev.Kind = "cursor"
+				ev.Res, _ = guard(func() error { _, err := h.Cursor(ctx); return err })
+			}
 		}
 		sev := st.end()
 		ev.Loads, ev.DLoads = distinctLoads(sev)
